@@ -2,4 +2,6 @@
 EXTENDS Stack
 BS3 == <<6, 12, 24>>
 BS2 == <<8, 16>>
+\* usable sizes of the first blocks of a real memory_stack(24): 24 - 16, 48 - 16
+BS2real == <<8, 32>>
 ====
